@@ -190,11 +190,14 @@ def handleReader (l : Line) (O : Oracles) : IO Unit := do
     (finalState CO cst lim.1).units)
   -- specification: labels as a map, unit metadata known from the earlier text
   let labels : Spec.Format.CMap := init.foldl (fun m kv => Spec.Format.CMap.assign m kv.1 kv.2 false) []
-  let unitsBefore := if hasPre then (Spec.Format.read O preFn [] [] pre).2 else []
-  let (srecs, sunits, serr) := Spec.Format.readLimited O fn labels unitsBefore text
+  -- the specification is judged with the CLOSED number/unit functions (C03/C04 models), not with
+  -- the answers the harness collected from the code under test
+  let SO := closedOracles O.uc
+  let unitsBefore := if hasPre then (Spec.Format.read SO preFn [] [] pre).2 else []
+  let (srecs, sunits, serr) := Spec.Format.readLimited SO fn labels unitsBefore text
   for rec in srecs do
     IO.println s!"spec {l.id} {showSRec rec}"
-  IO.println s!"spec {l.id} end n={srecs.length} failed={errField none serr} units={showUnits sunits} clone=ok"
+  IO.println s!"spec {l.id} end n={srecs.length} failed={errField none serr} units={showUnits sunits} clone=ok again=0"
 
 /-- N4: the label generated for an occurrence of a duplicated unlabelled path `q` (`q#n`) is also
 the label of another entry (a path literally named `q#n`, or a user label `q#n=…`). -/
@@ -237,13 +240,13 @@ def handleFiles (l : Line) (O : Oracles) : IO Unit := do
   IO.println s!"obs {l.id} end n={out.recs.length} failed={errField out.failed out.ioErr} units={showUnits out.st.units}"
   let cout := Files.runLim (closedOracles O.uc) fs paths allowStdin allowLabels
   IO.println (closedLine l.id out.recs cout.recs out.st.units cout.st.units)
-  let sp := Spec.Format.readFilesLimited O fs [] fs.stdin (Spec.Format.inputs paths allowStdin allowLabels)
+  let sp := Spec.Format.readFilesLimited (closedOracles O.uc) fs [] fs.stdin (Spec.Format.inputs paths allowStdin allowLabels)
   for rec in sp.recs do
     IO.println s!"spec {l.id} {showSRec rec}"
   -- known class N4: label clash with a literal `q#n` path or user label
   let kf := if isN4 paths allowLabels then " kf=N4" else ""
   let used := ((idealLabels paths allowStdin allowLabels).zip sp.results).filter (fun p => p.2 > 0)
-  IO.println s!"spec {l.id} end n={sp.recs.length} failed={errField sp.failed sp.ioErr} units={showUnits sp.units} clone=ok distinct={(used.map (·.1)).eraseDups.length}{kf}"
+  IO.println s!"spec {l.id} end n={sp.recs.length} failed={errField sp.failed sp.ioErr} units={showUnits sp.units} clone=ok distinct={(used.map (·.1)).eraseDups.length} again=0{kf}"
 
 def handle (l : Line) : IO Unit := do
   if l.kind != "case" then return
